@@ -11,5 +11,5 @@ CONSTANTS
   Msgs = {}
   Bug = {}
 INVARIANTS TypeOK PresentsLastCookie ContactIsGrant HelloCarriesOwnId AtMostOneReply ReplyMatchesOutcome EveryRequestAnswered ReplyOnOwnOrLaterConn WritesSerialised NoWedge StoppedClean OneConnPerBroker
-PROPERTY Independent
+PROPERTIES Independent KeepsRegistration
 CHECK_DEADLOCK FALSE
